@@ -53,6 +53,8 @@ EXC_PARENT = {
     "IndexError": "LookupError",
     "KeyError": "LookupError",
     "ValueError": "Exception",
+    "NameError": "Exception",
+    "UnboundLocalError": "NameError",
     "UnicodeError": "ValueError",
     "UnicodeEncodeError": "UnicodeError",
     "UnicodeDecodeError": "UnicodeError",
@@ -214,6 +216,16 @@ class _UnknownIter:
 
     def next(self, sx, st, k):
         return [R(st, Conc(Unknown(self.u.why + "[*]"))), R(st.fork(), None, Exc("Exception", exact=False))]
+
+
+class MaybeUnbound:
+    """binding of a local that is assigned only inside a loop body, as seen at the loop head"""
+
+    def __init__(self, name):
+        self.name = name
+
+    def __repr__(self):
+        return "<maybe-unbound %s>" % self.name
 
 
 class Obligation:
@@ -735,7 +747,17 @@ class SX:
         self.unsupported("unbound name %r" % name, node)
 
     def ev_Name(self, node, st):
-        return [R(st, self.lookup(node.id, st, node))]
+        try:
+            v = self.lookup(node.id, st, node)
+            if isinstance(v, Conc) and isinstance(v.v, MaybeUnbound):
+                s2 = st.fork()
+                return [R(st, Conc(Unknown("value of %s left by an earlier iteration" % node.id))), R(s2, None, Exc("UnboundLocalError"))]
+            return [R(st, v)]
+        except Unsupported:
+            if not self.spec_mode and node.id in getattr(self, "unit_locals", ()):
+                # a local of this function that no statement has bound on this path: python raises UnboundLocalError
+                return [R(st, None, Exc("UnboundLocalError"))]
+            raise
 
     def ev_Tuple(self, node, st):
         results, raises = self.ev_seq(node.elts, st)
@@ -1779,9 +1801,10 @@ class SX:
                 names.append(n.id)
             else:
                 self.unsupported("exception handler class expression", h)
-        for nm in names:
+        for i, nm in enumerate(names):
             if nm not in EXC_PARENT and nm != "BaseException":
-                self.unsupported("unknown exception class %s (add it to EXC_PARENT)" % nm, h)
+                # a class the lattice does not know (a library's exception): it may or may not be a superclass of what was raised
+                names[i] = "?" + nm
         return names
 
     def dispatch_handlers(self, handlers, o):
@@ -1793,6 +1816,10 @@ class SX:
             classes = self.handler_classes(h)
             nxt = []
             for s, e in pending:
+                if any(c.startswith("?") for c in classes) and not any(is_subclass(e.cls, c) for c in classes if not c.startswith("?")):
+                    outs.extend(self.run_handler(h, s.fork(), e))      # an unknown class: may be caught here ...
+                    nxt.append((s, e))                                  # ... or not
+                    continue
                 if any(is_subclass(e.cls, c) for c in classes):
                     outs.extend(self.run_handler(h, s, e))
                 elif not e.exact and any(is_subclass(c, e.cls) and not any(is_subclass(c, x) for x in e.excluding) for c in classes):
@@ -1893,6 +1920,11 @@ class SX:
         for n in names:
             if n in st.env:
                 st.env[n] = self.havoc_val(st.env[n], st, n)
+            elif not any(n in fr for fr in st.frames) and n not in extra_targets and not self.spec_mode:
+                # a name first bound INSIDE the loop body: at the head of an arbitrary iteration it is either still unbound (first
+                # iteration) or holds whatever an earlier iteration left in it -- reading it before this iteration assigns it
+                # yields UnboundLocalError or a value nothing is known about (see ev_Name)
+                st.env[n] = Conc(MaybeUnbound(n))
         # heap: mutated containers / objects
         mutated_all = False
         roots = set()
@@ -2068,7 +2100,8 @@ class SX:
         self.havoc_for_loop(stmt.body, st, targets)
         # locals first assigned inside the loop: declared by the sidecar so that iteration posts can mention them
         for nm, ty in (getattr(self.unit, "loop_locals", None) or {}).items():
-            if nm not in st.env:
+            cur = st.env.get(nm)
+            if nm not in st.env or (isinstance(cur, Conc) and isinstance(cur.v, MaybeUnbound)):
                 st.env[nm] = self.fresh(ty, nm, st)
         k = self.fresh(V.Int, idx, st)
         st.assume(k.term >= 0)
